@@ -39,36 +39,37 @@ let cbuf_case line =
           let cb = ref cb0 in
           List.iter (fun op ->
               let w = words op in
-              (match w with
-               | [] -> ()
-               | ("w" | "W") :: _ ->
-                 let ((cb', n), d) = write !cb (bytes_of_op w) in
-                 cb := cb'; Printf.printf "%s %d %d" (List.hd w) (iz n) (iz d)
-               | ["p"; n] ->
-                 let (r, b) = peek !cb (zi (int_of_string n)) in Printf.printf "p %d %s" (iz r) (hex b)
-               | ["r"; n] ->
-                 let ((cb', r), b) = read !cb (zi (int_of_string n)) in
-                 cb := cb'; Printf.printf "r %d %s" (iz r) (hex b)
-               | ["d"; n] ->
-                 let (cb', r) = drop !cb (zi (int_of_string n)) in cb := cb'; Printf.printf "d %d" (iz r)
-               | ["l"; len; lines] ->
-                 let ((cb', r), b) = read_line !cb (zi (int_of_string len)) (zi (int_of_string lines)) in
-                 cb := cb'; Printf.printf "l %d %s 1" (iz r) (hex b)
-               | ["k"; len; lines] ->
-                 let (r, b) = peek_line !cb (zi (int_of_string len)) (zi (int_of_string lines)) in
-                 Printf.printf "k %d %s 1" (iz r) (hex b)
-               | "f" :: len :: rest ->
-                 let scr = rd_script (match rest with s :: _ -> s | [] -> "-") in
-                 let (((cb', r), d), scr') = write_from_fd !cb scr (zi (int_of_string len)) in
-                 cb := cb'; Printf.printf "f %d %d %d" (iz r) (iz d) (fd_pending scr - fd_pending scr')
-               | "t" :: len :: rest ->
-                 let scr = wr_script (match rest with s :: _ -> s | [] -> "-") in
-                 let (((cb', r), b), _) = read_to_fd !cb scr (zi (int_of_string len)) in
-                 cb := cb'; Printf.printf "t %d %s" (iz r) (hex b)
-               | ["x"] -> cb := flush !cb; pr "x"
-               | ["u"] -> Printf.printf "u %d %d %d" (iz (used !cb)) (iz (free !cb)) (if is_empty !cb then 1 else 0)
-               | ["o"; v] -> let (cb', r) = opt_set_overwrite !cb (zi (int_of_string v)) in cb := cb'; Printf.printf "o %d" (iz r)
-               | c :: _ -> Printf.printf "? unknown op %s" c);
+              (* every operation goes through Cbuf.step, the function the refinement theorem C09_cbuf_refines is about *)
+              let arg n = zi (int_of_string n) in
+              let script rest = (match rest with s :: _ -> s | [] -> "-") in
+              let o = (match w with
+                  | ("w" | "W") :: _ -> Some (OWrite (bytes_of_op w))
+                  | ["p"; n] -> Some (OPeek (arg n))
+                  | ["r"; n] -> Some (ORead (arg n))
+                  | ["d"; n] -> Some (ODrop (arg n))
+                  | ["l"; len; lines] -> Some (OReadLine (arg len, arg lines))
+                  | ["k"; len; lines] -> Some (OPeekLine (arg len, arg lines))
+                  | "f" :: len :: rest -> Some (OWriteFd (rd_script (script rest), arg len))
+                  | "t" :: len :: rest -> Some (OReadFd (wr_script (script rest), arg len))
+                  | ["x"] -> Some OFlush
+                  | ["u"] -> Some OUsed
+                  | _ -> None) in
+              (match w, o with
+               | [], _ -> ()
+               | ["o"; v], _ -> let (cb', r) = opt_set_overwrite !cb (zi (int_of_string v)) in cb := cb'; Printf.printf "o %d" (iz r)
+               | c :: _, None -> Printf.printf "? unknown op %s" c
+               | c :: _, Some o ->
+                 let (cb', r) = step !cb o in
+                 let before = !cb in
+                 cb := cb';
+                 (match o with
+                  | OWrite _ -> Printf.printf "%s %d %d" c (iz r.o_ret) (iz r.o_dropped)
+                  | OPeek _ | ORead _ | OReadFd _ -> Printf.printf "%s %d %s" c (iz r.o_ret) (hex r.o_bytes)
+                  | ODrop _ -> Printf.printf "d %d" (iz r.o_ret)
+                  | OReadLine _ | OPeekLine _ -> Printf.printf "%s %d %s 1" c (iz r.o_ret) (hex r.o_bytes)
+                  | OWriteFd (scr, _) -> Printf.printf "f %d %d %d" (iz r.o_ret) (iz r.o_dropped) (fd_pending scr - fd_pending r.o_fd)
+                  | OFlush -> pr "x"
+                  | OUsed -> Printf.printf "u %d %d %d" (iz r.o_ret) (iz (free before)) (if is_empty before then 1 else 0)));
               if w <> [] then (pr (idx !cb); pr "\n")) ops)
      | _ -> pr "? bad header\n")
 
@@ -252,6 +253,13 @@ let telnet_case line =
                  let scr = wr_script (match rest with s :: _ -> s | [] -> "-") in
                  let (((d', e), b), _) = handle_write !d scr in
                  d := d'; Printf.printf "s %d %s" (if e then 1 else 0) (hex b)
+               | ["e"; n] ->
+                 let n = int_of_string n in
+                 (match regex_subject !d.d_from with
+                  | Some subj when n >= 0 && n <= List.length subj ->
+                    let (from', _) = regex_consume !d.d_from (zi n) in
+                    d := { !d with d_from = from' }; Printf.printf "e 1 %s" (hex subj)
+                  | _ -> pr "e 0 -")
                | ["R"] -> d := connected (disconnect !d); pr "R"
                | c :: _ -> Printf.printf "? unknown op %s" c);
               if w <> [] then (pr (tstate_line !d); pr "\n")) ops)
@@ -292,6 +300,15 @@ let telnet_monitor (case, outs) =
                     let b = text_of_hex h in
                     check (int_of_string ret = List.length b && is_prefix b !from_prev) "consume" "cbuf_drop / cbuf_peek disagree with the buffer content";
                     cons := !cons @ b
+                  | ["e"; n], [_; m; h] ->
+                    let n = int_of_string n in
+                    let should = !from_prev <> [] && n >= 0 && n <= List.length !from_prev in
+                    check ((m = "1") = should) "expect_match" "_getregex_buf matched / failed to match ^.{n} against the unread bytes";
+                    if should then begin
+                      check (text_of_hex h = nul_to_ff !from_prev) "nul_view"
+                        (Printf.sprintf "the pattern was matched against %s, the unread bytes with NUL as 0xFF are %s" h (hex (nul_to_ff !from_prev)));
+                      cons := !cons @ fifo_peek !from_prev (zi n)
+                    end
                   | "s" :: _, [_; _; h] ->
                     let b = text_of_hex h in
                     check (is_prefix b !to_prev) "write_side" "bytes delivered to the device are not the head of the queue";
